@@ -6,6 +6,7 @@ import (
 	"encoding/json"
 	"flag"
 	"fmt"
+	"go/types"
 	"os"
 	"os/exec"
 	"path/filepath"
@@ -14,6 +15,8 @@ import (
 	"strconv"
 	"strings"
 	"time"
+
+	"golang.org/x/tools/go/ssa"
 )
 
 type BoundedSpec struct {
@@ -257,6 +260,10 @@ func cmdCheck(args []string) int {
 		b.WriteString(lem.Text + "\n(check-sat)\n")
 		o := &Obligation{Fn: "lemma", Kind: "lemma", Name: "lemma#" + lem.Name, Group: "lemma#" + lem.Name, Pos: lem.File, Src: "lemma " + lem.Name}
 		items = append(items, &workItem{o: o, script: b.String()})
+	}
+	items = append(items, stableFieldObligations(w)...)
+	for _, k := range ps.Functions {
+		items = append(items, noEffectObligations(w, k)...)
 	}
 	if len(items) == 0 && len(ps.Bounded) == 0 {
 		return internalErr("no obligations generated for %s", id)
@@ -660,3 +667,157 @@ func runReplay(id, harness string, g *groupStatus, outDir string) (string, bool)
 var extraOverlay map[string]string
 
 func cmdSelftest(args []string) int { return selftest(args) }
+
+// stableFieldObligations: fields declared `stable` in a struct contract are stored to only by their
+// listed writers (static scan over every function of the loaded repository packages).
+func stableFieldObligations(w *World) []*workItem {
+	var out []*workItem
+	var tns []string
+	for tn, sc := range w.CS.Structs {
+		if len(sc.Stable) > 0 {
+			tns = append(tns, tn)
+		}
+	}
+	sort.Strings(tns)
+	for _, tn := range tns {
+		sc := w.CS.Structs[tn]
+		var fields []string
+		for f := range sc.Stable {
+			fields = append(fields, f)
+		}
+		sort.Strings(fields)
+		for _, f := range fields {
+			writers := map[string]bool{}
+			for _, wr := range sc.Stable[f] {
+				writers[wr] = true
+			}
+			var bad []string
+			seen := false
+			for key, fn := range w.FnByKey {
+				for _, b := range fn.Blocks {
+					for _, ins := range b.Instrs {
+						st, ok := ins.(*ssa.Store)
+						if !ok {
+							continue
+						}
+						fa, ok := st.Addr.(*ssa.FieldAddr)
+						if !ok {
+							continue
+						}
+						pt, ok := fa.X.Type().Underlying().(*types.Pointer)
+						if !ok || typeStr(pt.Elem()) != tn {
+							continue
+						}
+						su, ok := pt.Elem().Underlying().(*types.Struct)
+						if !ok || su.Field(fa.Field).Name() != f {
+							continue
+						}
+						seen = true
+						if !writers[key] {
+							bad = append(bad, key+" at "+w.Prog.Fset.Position(st.Pos()).String())
+						}
+					}
+				}
+			}
+			if !seen && w.SPkgs != nil {
+				// the struct's package may not be loaded for this property: nothing to check
+				found := false
+				for key := range w.FnByKey {
+					if writers[key] {
+						found = true
+					}
+				}
+				if !found {
+					continue
+				}
+			}
+			sort.Strings(bad)
+			name := "static#frame:stable:" + tn + "." + f
+			o := &Obligation{Fn: "static", Kind: "frame:stable", Name: name, Group: name, Static: true, StaticOK: len(bad) == 0, Src: "stable " + f + " writers " + strings.Join(sc.Stable[f], ", ")}
+			if len(bad) > 0 {
+				o.Model = "stores outside the declared writers: " + strings.Join(bad, "; ")
+			}
+			out = append(out, &workItem{o: o})
+		}
+	}
+	return out
+}
+
+// noEffectObligations: a function with `noeffects <class>` reaches, through static calls inside the
+// repository, no function of that effect class. Interface and dynamic calls are not followed (noted).
+func noEffectObligations(w *World, key string) []*workItem {
+	var out []*workItem
+	fn := w.FnByKey[key]
+	if fn == nil {
+		return nil
+	}
+	for _, fc := range w.contractsFor(key) {
+		for _, class := range fc.NoEffects {
+			forbidden := map[string]bool{}
+			for _, f := range w.CS.EffectClasses[class] {
+				forbidden[f] = true
+			}
+			seen := map[*ssa.Function]bool{}
+			var bad []string
+			dyn := 0
+			var visit func(f *ssa.Function, path string)
+			visit = func(f *ssa.Function, path string) {
+				if seen[f] {
+					return
+				}
+				seen[f] = true
+				for _, b := range f.Blocks {
+					for _, ins := range b.Instrs {
+						var cc *ssa.CallCommon
+						switch c := ins.(type) {
+						case *ssa.Call:
+							cc = c.Common()
+						case *ssa.Defer:
+							cc = c.Common()
+						case *ssa.Go:
+							cc = c.Common()
+						case *ssa.MakeClosure:
+							if cf, ok := c.Fn.(*ssa.Function); ok {
+								visit(cf, path+" > "+fnKey(cf))
+							}
+							continue
+						default:
+							continue
+						}
+						if cc.IsInvoke() {
+							k := ifaceMethodKey(cc.Value.Type(), cc.Method)
+							if forbidden[k] {
+								bad = append(bad, path+" > "+k)
+							}
+							dyn++
+							continue
+						}
+						callee, ok := cc.Value.(*ssa.Function)
+						if !ok {
+							dyn++
+							continue
+						}
+						k := fnKey(callee)
+						if forbidden[k] {
+							bad = append(bad, path+" > "+k+" at "+w.Prog.Fset.Position(ins.Pos()).String())
+							continue
+						}
+						if inRepo(callee) && len(callee.Blocks) > 0 {
+							visit(callee, path+" > "+k)
+						}
+					}
+				}
+			}
+			visit(fn, key)
+			name := key + "#frame:noeffects:" + class
+			o := &Obligation{Fn: key, Kind: "frame:noeffects", Name: name, Group: name, Static: true, StaticOK: len(bad) == 0,
+				Src: "noeffects " + class, Note: fmt.Sprintf("%d interface/dynamic calls not followed", dyn)}
+			if len(bad) > 0 {
+				sort.Strings(bad)
+				o.Model = "forbidden effects reachable: " + strings.Join(bad, "; ")
+			}
+			out = append(out, &workItem{o: o})
+		}
+	}
+	return out
+}
